@@ -3,6 +3,7 @@
 from __future__ import annotations
 
 import asyncio
+import copy
 import itertools
 from typing import Any
 
@@ -15,23 +16,31 @@ ENGINE = "iso14229-reference"
 TECHNIQUE = (
     "runtime reference-model monitor: every reply of the real RandomUDSServer (via UDSServerTransport.handle_request) and its "
     "state after every request are compared online with an executable model of the ISO 14229-1 default response chain, "
-    "over generated models, request histories, exhaustive short requests and behaviour-switch subsets"
+    "over generated models, request histories, exhaustive short requests and behaviour-switch subsets, the subsets both given at "
+    "construction and written to the public behavior attribute of a live ECU in the middle of a history"
 )
 LEVEL_TEXT = (
     "Exploration: real virtual ECUs (seeds x randomness parameter sets incl. empty/full lists) are driven in-process with request "
     "histories (model-aware requests, structured valid requests, random bytes) and with every request of length 1 and 2 plus "
     "sampled length 3 for all 256 service ids; each reply and the server state (session, security level) after each request is "
     "judged by a reference rule chain parameterised by the server's own service model. All single-switch-off configurations and "
-    "sampled subsets of the nine switches are run with the chain minus those rules. Held = held on those executions."
+    "sampled subsets of the nine switches are run with the chain minus those rules. Live reconfiguration: ECUs constructed with the "
+    "defaults, one switch off or a random subset are walked through a sequence of other subsets while they run (one switch toggled, "
+    "back to the construction-time subset, all on, all changed, random subset; written either switch by switch on server.behavior or "
+    "by assigning a new Behavior object), keeping session / security / seed state; after each change the request classes every "
+    "single rule decides plus a further history are judged by the chain minus the switches that are off at that moment. "
+    "Held = held on those executions."
 )
 LEVEL_NOTE = (
     "Trusted: rule chain in vf/models/vecu.py (appendix D). 'Unparsable' is observed with gallia's own dynamic request parser; "
     "which services carry a sub-function is read from the model under test."
 )
 RULE = (
-    "cases = (server seed, randomness parameters, switch subset, request history prefix, request); histories of 200-2000 requests "
+    "cases = (server seed, randomness parameters, switch subset now in force [and, for live ECUs, how it came into force], request "
+    "history prefix, request); histories of 200-2000 requests "
     "from the shared request generator, plus exhaustive sweeps: all 256 one-byte and 65536 two-byte requests and sampled three-byte "
-    "requests per swept state; non-trivial = request answered by rules 1-6 with a rule other than 'unknown everywhere'; distinct = "
+    "requests per swept state; live-reconfiguration histories = 120-300 requests, then 8-16 x (switch change, 256 one-byte + 250-600 "
+    "two-byte + rule-5 probes, 120-300 requests); non-trivial = request answered by rules 1-6 with a rule other than 'unknown everywhere'; distinct = "
     "distinct (model, switches, state, request)"
 )
 ASSUMPTIONS = [
@@ -39,6 +48,9 @@ ASSUMPTIONS = [
     "(plus exact expectations for session change, session read, tester present, ECU reset, seed/key sequencing)",
     "with default_response_if_sub_function_not_supported switched off, DiagnosticSessionControl requests are restricted to sessions the model offers "
     "(the statement does not define an ECU inside a session it does not offer)",
+    "'disabling one behaviour' covers a switch written to the public UDSServer.behavior attribute (or a new Behavior object assigned to it) "
+    "of an ECU that has already answered requests: the statement names no moment at which the subset has to be chosen, and the state "
+    "reached by the history so far stays in force",
 ]
 EXHAUSTIVE = {"quick": False, "thorough": False}
 EXHAUSTIVE_NOTE = "exhaustive sub-space per swept state: every request of length 1 and 2 (all 256 service ids x all second bytes)"
@@ -53,6 +65,8 @@ def shards(tier: str, seed: int) -> list[dict[str, Any]]:
             out.append({"mode": "history", "base": f"h{seed}-{i}", "servers": 6, "length": 1500, "off": "none"})
         out.append({"mode": "history", "base": f"s{seed}", "servers": 9, "length": 1200, "off": "single"})
         out.append({"mode": "history", "base": f"m{seed}", "servers": 40, "length": 250, "off": "subsets"})
+        for i in range(2):
+            out.append({"mode": "reconf", "base": f"r{seed}-{i}", "servers": 9, "segments": 8, "seglen": 120, "two_byte": 250})
         return out
     for i in range(40):
         out.append({"mode": "sweep", "server_seed": f"t{seed}-{i}", "rp": i % len(vecu.PARAM_SETS), "sessions": 6, "len3": 30000})
@@ -62,6 +76,8 @@ def shards(tier: str, seed: int) -> list[dict[str, Any]]:
         out.append({"mode": "history", "base": f"s{seed}-{i}", "servers": 18, "length": 3000, "off": "single"})
     for i in range(8):
         out.append({"mode": "history", "base": f"m{seed}-{i}", "servers": 64, "length": 600, "off": "subsets"})
+    for i in range(8):
+        out.append({"mode": "reconf", "base": f"r{seed}-{i}", "servers": 30, "segments": 16, "seglen": 300, "two_byte": 600})
     return out
 
 
@@ -72,7 +88,46 @@ def required_reach(tier: str) -> dict[str, int]:
         "rule:6:ecu-reset": 5, "rule:6:request-seed": 5, "rule:6:send-key-ok": 1, "suppressed-positive": 10,
         "nrc.7f": 50, "nrc.7e": 10, "state.non-default-session": 100, "state.security-level-set": 1,
         "#off:": 9, "switch-subsets": 10, "state-checks": 1000, "inactivity-pause": 10,
+        # live reconfiguration: one ECU object under a sequence of switch subsets (both ways of writing the public attribute, every
+        # switch changed in both directions, and requests that the changed switch - not the construction-time setting - decides)
+        "reconf.servers": 6, "reconf.how:flip": 10, "reconf.how:assign": 10, "#reconf.changed:": 18, "#reconf.constructed-with:": 3,
+        "reconf.one-switch": 10, "reconf.several-switches": 10, "reconf.back-to-construction-setting": 3,
+        "reconf.in-non-default-session": 3, "reconf.decided-differently-than-at-construction": 1000,
+        "#reconf.effective-switch:": 9, "#reconf.effective:": 15,
     }
+
+
+def subset_tag(off: frozenset[str] | set[str]) -> str:
+    if not off:
+        return "defaults"
+    return "off:" + "+".join(sorted(s[len("default_response_if_"):] for s in off)) if len(off) == 1 else "off:subset"
+
+
+RECONF_HOW = ("flip", "assign")
+
+
+def reconfigure(d: vecu.Driver, how: str, off_before: frozenset[str], off_after: frozenset[str]) -> None:
+    """Change the switch subset of the running server through its public `behavior` attribute (the anchor state 'behaviour
+    switches'): either set the switches that change one by one on the Behavior object the server holds, or give the server a
+    new Behavior object.  What is written comes from the harness's own record of the setting, nothing is read back."""
+    if how == "flip":
+        for k in vecu.SWITCHES:
+            if (k in off_before) != (k in off_after):
+                setattr(d.server.behavior, k, k not in off_after)
+    elif how == "assign":
+        from gallia.services.uds.server import UDSServer
+
+        d.server.behavior = UDSServer.Behavior(**vecu.all_switches(off_after))
+    else:
+        raise ValueError(how)
+    d.switches = vecu.all_switches(off_after)
+
+
+def rule_under(pre: vecu.VecuModel, sw: dict[str, bool], q: bytes, raw: bool, reply: bytes | None) -> str:
+    """which rule of the reference chain decides `q` in model state `pre` if the switches were `sw` (pre is not modified)"""
+    shadow = copy.copy(pre)
+    shadow.sw = sw
+    return shadow.check(q, raw, reply).rule
 
 
 async def drive(ctx: Any, d: vecu.Driver, requests: Any, tag: str, cfg: dict[str, Any]) -> bool:
@@ -81,7 +136,52 @@ async def drive(ctx: Any, d: vecu.Driver, requests: Any, tag: str, cfg: dict[str
     assert m is not None
     last_seed = None
     hist: list[bytes] = []
+    live = bool(cfg.get("live"))
+    sw0 = dict(m.sw)  # the switch setting the ECU was constructed with (model's short names)
+    off_now: frozenset[str] = frozenset(cfg.get("off", []))
+    last_marker: bytes | None = None
+    reconfs = 0
+
+    def tail() -> list[bytes]:
+        t = hist[-30:]
+        return t if last_marker is None or last_marker in t else [last_marker] + t
+
     for q in requests:
+        if isinstance(q, tuple) and q[0] == "RECONF":
+            # ("RECONF", how, switches now off): the switch subset of the LIVE ECU is changed through its public `behavior`
+            # attribute; session, security level and seed memory stay what the history so far made them
+            _, how, target = q
+            target = frozenset(target)
+            changed = sorted(off_now ^ target)
+            try:
+                reconfigure(d, how, off_now, target)
+            except Exception as e:
+                ctx.violation(f"reconfigure/{how}/{type(e).__name__}", "changing the behaviour switches of a running virtual ECU raises",
+                              {**cfg, "history": tail(), "how": how, "off_now": sorted(target), "error": repr(e)})
+                return False
+            off_now = target
+            m.sw = {k[len("default_response_if_"):]: v for k, v in vecu.all_switches(off_now).items()}
+            last_marker = b"\x00RECONF:" + f"{how}:{','.join(sorted(off_now))}".encode()
+            hist.append(last_marker)
+            reconfs += 1
+            tag = "live:" + subset_tag(off_now)
+            cfg = {**cfg, "off_now": sorted(off_now), "reconfigurations": reconfs}
+            ctx.reach(f"reconf.how:{how}")
+            for k in changed:
+                ctx.reach(f"reconf.changed:{k}:{'off' if k in off_now else 'on'}")
+            if len(changed) == 1:
+                ctx.reach("reconf.one-switch")
+            elif len(changed) > 1:
+                ctx.reach("reconf.several-switches")
+            if m.sw == sw0:
+                ctx.reach("reconf.back-to-construction-setting")
+            if m.S != 1:
+                ctx.reach("reconf.in-non-default-session")
+            if m.sec is not None:
+                ctx.reach("reconf.with-security-level-set")
+            if m.last_sa is not None:
+                ctx.reach("reconf.with-seed-outstanding")
+            continue
         if isinstance(q, tuple):  # ("PAUSE", seconds): the tester falls silent; > 10 s of inactivity reset the ECU state
             vecu.CLOCK.advance(q[1])
             if q[1] > 10:
@@ -106,10 +206,21 @@ async def drive(ctx: Any, d: vecu.Driver, requests: Any, tag: str, cfg: dict[str
         try:
             reply, _ = await d.transport.handle_request(q)
         except Exception as e:
-            ctx.violation(f"raises/{type(e).__name__}/{tag}", f"virtual ECU raises {type(e).__name__} while answering a request", {**cfg, "history": [h for h in hist[-30:]], "request": q, "error": repr(e)})
+            ctx.violation(f"raises/{type(e).__name__}/{tag}", f"virtual ECU raises {type(e).__name__} while answering a request", {**cfg, "history": tail(), "request": q, "error": repr(e)})
             return False
+        pre = copy.copy(m) if live and m.sw != sw0 else None  # model state before this request (for the reach attribution below)
         v = m.check(q, raw, reply)
         ctx.evals()
+        if pre is not None:
+            # non-vacuity of the live reconfiguration: is this request decided by another rule than under the setting the ECU
+            # was constructed with, and which of the changed switches makes the difference?  (reach counters only, no verdict)
+            ctx.reach("reconf.requests-under-changed-setting")
+            if rule_under(pre, sw0, q, raw, reply) != v.rule:
+                ctx.reach("reconf.decided-differently-than-at-construction")
+                for k, val in pre.sw.items():
+                    if sw0[k] != val and rule_under(pre, {**pre.sw, k: sw0[k]}, q, raw, reply) != v.rule:
+                        ctx.reach(f"reconf.effective:{k}:{'on' if val else 'off'}")
+                        ctx.reach(f"reconf.effective-switch:{k}")
         ctx.reach(f"rule:{v.rule.split('+')[0]}")
         if v.rule.endswith("+suppressed") and v.ok:
             ctx.reach("suppressed-positive")
@@ -123,17 +234,17 @@ async def drive(ctx: Any, d: vecu.Driver, requests: Any, tag: str, cfg: dict[str
             ctx.case((cfg["server_seed"], cfg["rp"], tag, before, q), nontrivial=True, n=0)
         if not v.ok:
             ctx.violation(f"reply/{v.rule}/{tag}/sid-{q[0]:02x}", f"reply contradicts the default response chain ({v.why})",
-                          {**cfg, "history": hist[-30:], "request": q, "reply": reply, "expected": v.expected, "raw": raw, "state_before": list(map(str, before))})
+                          {**cfg, "history": tail(), "request": q, "reply": reply, "expected": v.expected, "raw": raw, "state_before": list(map(str, before))})
         # state after the request
         st = d.server.state
         ctx.reach("state-checks")
         if st.session != m.S:
             ctx.violation(f"state/session/{v.rule}/{tag}", "server session differs from the session ISO prescribes after this exchange",
-                          {**cfg, "history": hist[-30:], "request": q, "reply": reply, "server_session": st.session, "model_session": m.S})
+                          {**cfg, "history": tail(), "request": q, "reply": reply, "server_session": st.session, "model_session": m.S})
             m.S = st.session
         if m.sec is not vecu.UNKNOWN and st.security_access_level != m.sec:
             ctx.violation(f"state/security-level/{v.rule}/{tag}", "server security level differs from what the exchange implies",
-                          {**cfg, "history": hist[-30:], "request": q, "reply": reply, "server_level": st.security_access_level, "model_level": m.sec})
+                          {**cfg, "history": tail(), "request": q, "reply": reply, "server_level": st.security_access_level, "model_level": m.sec})
         if m.sec is vecu.UNKNOWN:
             m.sec = st.security_access_level
         if m.S != 1:
@@ -150,7 +261,8 @@ def history(ctx: Any, d: vecu.Driver, n: int, restrict_dsc: bool) -> Any:
     rng = ctx.rng
     m = d.model
     assert m is not None
-    last_seed: tuple[int, bytes] | None = None
+    # (a fresh model has no seed outstanding; a later segment of a live-reconfiguration history carries it on)
+    last_seed: tuple[int, bytes] | None = (m.last_sa[0], m.last_sa[1]) if m.last_sa is not None and m.last_sa[1] is not vecu.UNKNOWN else None
     remembered: tuple[int, bytes] | None = None  # the last seed the tester saw, even if the ECU has forgotten it meanwhile
     for _ in range(n):
         if last_seed is not None:
@@ -169,7 +281,7 @@ def history(ctx: Any, d: vecu.Driver, n: int, restrict_dsc: bool) -> Any:
             yield ("PAUSE", rng.choice([3.0, 30.0, 600.0]))
             last_seed = None if m.last_sa is None else last_seed
         q = vecu.gen_request(rng, m, last_seed)
-        if restrict_dsc and q[0] == 0x10 and len(q) >= 2 and (q[1] & 0x7F) not in (m.M.get(m.S, {}).get(0x10) or []):
+        if (restrict_dsc or not m.sw["sub_function_not_supported"]) and q[0] == 0x10 and len(q) >= 2 and (q[1] & 0x7F) not in (m.M.get(m.S, {}).get(0x10) or []):
             continue
         yield q
         last_seed = (m.last_sa[0], m.last_sa[1]) if m.last_sa is not None and m.last_sa[1] is not vecu.UNKNOWN else None
@@ -186,8 +298,84 @@ def sweep(ctx: Any, len3: int) -> Any:
         yield bytes([rng.randrange(256), rng.randrange(256), rng.randrange(256)])
 
 
+def probes(ctx: Any, d: vecu.Driver, two_byte: int) -> Any:
+    """after a reconfiguration: the classes of request that each single rule decides - every one-byte request (rules 1, 2, generalReject),
+    sampled two-byte requests (rules 1, 3, 4, suppression), and the three exact-answer requests of rule 5 with and without suppress bit -
+    in whatever state the history has left the ECU"""
+    rng = ctx.rng
+    m = d.model
+    assert m is not None
+
+    def offered_dsc() -> list[int]:
+        return m.M.get(m.S, {}).get(0x10) or []
+
+    fixed = [b"\x3e\x00", b"\x3e\x80", b"\x22\xf1\x86", b"\x3e\x00", b"\x22\xf1\x86\xf1\x86"]
+    for q in fixed:
+        yield q
+    if offered_dsc():
+        yield bytes([0x10, rng.choice(offered_dsc()) | rng.choice([0, 0, 0x80])])
+    for q in fixed:
+        yield q
+    one = [bytes([s]) for s in range(256)]
+    rng.shuffle(one)
+    yield from one
+    for _ in range(two_byte):
+        q = bytes([rng.choice(sorted(m.M.get(m.S, {}))) if m.M.get(m.S) and rng.random() < 0.5 else rng.randrange(256), rng.randrange(256)])
+        if q[0] == 0x10 and not m.sw["sub_function_not_supported"] and (q[1] & 0x7F) not in offered_dsc():
+            continue
+        yield q
+
+
+def next_subset(rng: Any, cur: frozenset[str], off0: frozenset[str]) -> frozenset[str]:
+    """the next switch subset of a live ECU: one switch toggled, back to the construction-time subset, everything on, everything
+    changed, or any other subset"""
+    r = rng.random()
+    if r < 0.45:
+        nxt = cur ^ {rng.choice(vecu.SWITCHES)}
+    elif r < 0.55:
+        nxt = off0
+    elif r < 0.65:
+        nxt = frozenset()
+    elif r < 0.72:
+        nxt = frozenset(vecu.SWITCHES) - cur
+    else:
+        nxt = frozenset(k for k in vecu.SWITCHES if rng.random() < rng.choice([0.15, 0.5]))
+    return frozenset(nxt) if nxt != cur else cur ^ {rng.choice(vecu.SWITCHES)}
+
+
+def live_history(ctx: Any, d: vecu.Driver, off0: frozenset[str], segments: int, seglen: int, two_byte: int) -> Any:
+    """one ECU object used under a sequence of switch subsets: history, then (reconfigure, probes, history) x segments"""
+    rng = ctx.rng
+    cur = off0
+    yield from history(ctx, d, seglen, False)
+    for _ in range(segments):
+        if ctx.out_of_time():
+            return
+        cur = next_subset(rng, cur, off0)
+        yield ("RECONF", rng.choice(RECONF_HOW), cur)
+        yield from probes(ctx, d, two_byte)
+        yield from history(ctx, d, seglen, False)
+
+
 async def arun(ctx: Any, params: dict[str, Any]) -> None:
     rng = ctx.rng
+    if params["mode"] == "reconf":
+        kinds = ["defaults", "single", "subset"]
+        for i in range(params["servers"]):
+            if ctx.out_of_time():
+                break
+            kind = kinds[i % 3]
+            off0 = frozenset() if kind == "defaults" else frozenset([rng.choice(vecu.SWITCHES)]) if kind == "single" else \
+                frozenset(k for k in vecu.SWITCHES if rng.random() < 0.5)
+            rp = rng.randrange(len(vecu.PARAM_SETS))
+            sseed = f"{params['base']}-{i}"
+            cfg = {"server_seed": sseed, "rp": rp, "off": sorted(off0), "live": True}
+            d = vecu.Driver(sseed, vecu.PARAM_SETS[rp], vecu.all_switches(off0))
+            await d.setup()
+            ctx.reach("reconf.servers")
+            ctx.reach(f"reconf.constructed-with:{kind}")
+            await drive(ctx, d, live_history(ctx, d, off0, params["segments"], params["seglen"], params["two_byte"]), subset_tag(off0), cfg)
+        return
     if params["mode"] == "sweep":
         cfg = {"server_seed": params["server_seed"], "rp": params["rp"], "off": []}
         d = vecu.Driver(params["server_seed"], vecu.PARAM_SETS[params["rp"]], vecu.all_switches())
@@ -278,8 +466,18 @@ def replay(ctx: Any, witness: dict[str, Any]) -> None:
         off = frozenset(witness.get("off", []))
         d = vecu.Driver(witness["server_seed"], vecu.PARAM_SETS[witness["rp"]], vecu.all_switches(off))
         await d.setup()
-        cfg = {"server_seed": witness["server_seed"], "rp": witness["rp"], "off": sorted(off)}
+        cfg = {"server_seed": witness["server_seed"], "rp": witness["rp"], "off": sorted(off), "live": bool(witness.get("live"))}
+
+        def item(h: Any) -> Any:
+            h = ux(h)
+            if h == b"\x00PAUSE":
+                return ("PAUSE", 30.0)
+            if isinstance(h, bytes) and h.startswith(b"\x00RECONF:"):
+                how, _, names = h[len(b"\x00RECONF:"):].decode().partition(":")
+                return ("RECONF", how, frozenset(n for n in names.split(",") if n))
+            return h
+
         # the stored history is a suffix; replay it from the default state (sufficient when the witness state is reachable from it)
-        await drive(ctx, d, [("PAUSE", 30.0) if ux(h) == b"\x00PAUSE" else ux(h) for h in witness.get("history", [])], "replay", cfg)
+        await drive(ctx, d, [item(h) for h in witness.get("history", [])], "replay", cfg)
 
     asyncio.run(go())
